@@ -257,6 +257,7 @@ class Run:
         self.rec = {}  # (dir_rel, step) -> list of captured states (one per save call)
         self.committed = {}  # dir_rel -> set of committed steps (model, from gates)
         self.commit_state = {}  # (dir_rel, step) -> captured state of the save that was committed
+        self.high_water = {}  # dir_rel -> newest step whose save ever completed (durably)
         self.damaged = {}  # dir_rel -> set of steps whose deletion had begun at a crash
         self.sweeps = {}  # lifetime idx -> list of (iteration, arrays dict)
         self.boots = []  # per lifetime: dict(raw restored state etc.)
@@ -334,6 +335,7 @@ class LifetimeCtx:
 
     def mark_committed(self, step):
         self.run.committed.setdefault(self.dir_rel, set()).add(step)
+        self.run.high_water[self.dir_rel] = max(self.run.high_water.get(self.dir_rel, 0), step)
         if step in self.pending_state:
             self.run.commit_state[(self.dir_rel, step)] = self.pending_state[step]
 
@@ -433,6 +435,7 @@ class LifetimeCtx:
         self.snap_committed = {k: set(v) for k, v in self.run.committed.items()}
         self.snap_commit_state = dict(self.run.commit_state)
         self.snap_dir_cfg = dict(self.run.dir_cfg)
+        self.snap_high_water = dict(self.run.high_water)
         self.snap_expiring = self.expiring
 
     def on_gate(self, name: str):
@@ -440,7 +443,14 @@ class LifetimeCtx:
         main cannot reach: inside a synchronous save() and inside construction (config write)."""
         c = self.crash
         kind, _, arg = name.partition(":")
-        if kind == "delete" and not self.asyn and self._cur_save is not None:
+        import threading as _th
+
+        if kind == "delete" and self.asyn and self._cur_save is not None and SIM.in_save:
+            # the solver's own thread deletes a step inside save() (no such code on the pinned
+            # tree): the step is gone from the durable state from this instant on
+            self.run.committed.setdefault(self.dir_rel, set()).discard(int(arg))
+            self.h["events"].append(["step_deleted_by_solver_thread", int(arg)])
+        elif kind == "delete" and not self.asyn and self._cur_save is not None:
             # synchronous save: deletion of expired steps begins only after the step rename
             self.mark_committed(self._cur_save)
         if not c or self.snap_taken:
@@ -498,6 +508,7 @@ class LifetimeCtx:
                 SIM.open_deletes = False
             ctx._cur_save = step
             ctx.pending_state[step] = st
+            SIM.forget(step)
             SIM.in_save = True
             try:
                 o_save(step)
@@ -621,6 +632,7 @@ def execute(plan: dict, root: str, resume: Run | None = None, only: int | None =
         h["model"] = {
             "committed": sorted(run.committed.get(src_rel, set())),
             "damaged": sorted(run.damaged.get(src_rel, set())),
+            "high_water": run.high_water.get(src_rel, 0),
             "config": ("absent" if not os.path.exists(cfgp) else ("empty" if os.path.getsize(cfgp) == 0 else "present")),
             "dst_steps": steps_in(dst),
         }
@@ -771,6 +783,7 @@ def execute(plan: dict, root: str, resume: Run | None = None, only: int | None =
             run.committed = {k: set(v) for k, v in ctx.snap_committed.items()}
             run.commit_state = dict(ctx.snap_commit_state)
             run.dir_cfg = dict(ctx.snap_dir_cfg)
+            run.high_water = dict(ctx.snap_high_water)
             post_crash(run, plan, li, snapdir)
             shutil.rmtree(fsdir)
             os.rename(snapdir, fsdir)
